@@ -89,6 +89,18 @@ class Logger:
     def env_state(self):
         env = self.env
         g = env.incomplete_game
+        before = D.raw_table(g) + np.asarray(env.full_game.get_values(), dtype=np.float64).tobytes() + bytes([env.steps_taken % 251])
+        st = self._env_state()
+        # reading state / reward / mask / done (twice) must not change anything
+        again = (np.asarray(env.state).tobytes(), float(env.reward), np.asarray(env.action_masks()).tobytes(), bool(env.done))
+        after = D.raw_table(g) + np.asarray(env.full_game.get_values(), dtype=np.float64).tobytes() + bytes([env.steps_taken % 251])
+        first = (np.asarray(env.state).tobytes(), float(env.reward), np.asarray(env.action_masks()).tobytes(), bool(env.done))
+        st["pure"] = int(before == after and first == again)
+        return st
+
+    def _env_state(self):
+        env = self.env
+        g = env.incomplete_game
         hidden = env.full_game.get_values()
         self.maxabs = max(1e-9, float(np.max(np.abs(hidden))))
         return {"k": [int(b) for b in g.are_values_known()], "lo": self.arr(g.get_lower_bounds()), "up": self.arr(g.get_upper_bounds()),
@@ -343,7 +355,7 @@ def main():
         for i in range(a.count):
             tid += 1
             gapname = gaps[i % len(gaps)]
-            budget = rng.choice([None, None, 1, 2, nact]) if a.kind != "solve" else None
+            budget = rng.choice([None, None, 0, 1, 2, nact]) if a.kind != "solve" else None
             linear = a.kind == "linear"
             solver_name = solvers[(i // len(gaps)) % len(solvers)] if a.kind == "solve" else ""
             if a.source == "exact":
